@@ -815,3 +815,20 @@ func init() {
 			planItem{register(worldScenario("C10", specRevertDelMetaRevert, revertOracle)), 2, 3})
 	}
 }
+
+// C05 / C06: shutdown with writes in flight, also while the store refuses a batch: whatever the shutdown path does with what
+// is queued, entries reach the store in id order and nothing is acknowledged that was not written
+var specCloseInFlightFault = worldSpec{Name: "close-in-flight-fault", Seed: seedA100, GracefulClose: true, FaultInsert: true,
+	Gen1: []reqSpec{create("c1", 5, "@world", "@b"), create("c2", 5, "@world", "@c"), {Name: "m1", Kind: "savemeta", TargetType: ledger.MetaTargetTypeAccount, TargetID: "c"}}}
+
+func init() {
+	b05, b06 := plans["C05"], plans["C06"]
+	plans["C05"] = func() []planItem {
+		return append(b05(),
+			planItem{register(worldScenario("C05", specCloseInFlight, chainOracle)), 2, 3},
+			planItem{register(worldScenario("C05", specCloseInFlightFault, chainOracle)), 2, 3})
+	}
+	plans["C06"] = func() []planItem {
+		return append(b06(), planItem{register(worldScenario("C06", specCloseInFlightFault, ackOracle)), 2, 3})
+	}
+}
